@@ -118,7 +118,9 @@ def strip(e):
     if e["k"] == "T":
         return {"k": "T", "name": e["name"], "idx": list(e["idx"])}
     if e["k"] == "L":
-        return {"k": "L", "v": e["v"]}
+        # a literal outside TLC's range is replaced by a placeholder; such cases carry the shape tag "big-literal"
+        # and their value verdicts are never used (see checks/_pipe.py)
+        return {"k": "L", "v": e["v"] if e["v"] is not None and abs(e["v"]["n"]) <= 32767 else {"n": 0, "e": 0}}
     return {"k": e["k"], "l": strip(e["l"]), "r": strip(e["r"])}
 
 
@@ -250,4 +252,71 @@ def sparse_only_indexes(asg, formats: dict) -> list[str]:
         ok = ok and all(any(f["k"] == "T" and x in f["idx"] for f in t) for t in terms(asg["rhs"]))
         if ok:
             out.append(x)
+    return out
+
+
+# ---------------------------------------------------------------------------------------------------------------------
+# Exact reference evaluation with Fractions.  Used ONLY where TLC's 32-bit integers cannot represent the values
+# (literals beyond 2^15): there the TLA+ oracle is inconclusive and this mirrors TensorAlgebra!DenoteAt.
+
+
+def denote(asg, dims: dict, content: dict) -> dict:
+    """target coordinate -> Fraction, content: name -> {coord tuple: Fraction}."""
+    import itertools
+    from fractions import Fraction
+
+    def signed_terms(e, sign=1):
+        if e["k"] in ("T", "L"):
+            return [(sign, [e])]
+        if e["k"] == "+":
+            return signed_terms(e["l"], sign) + signed_terms(e["r"], sign)
+        if e["k"] == "-":
+            return signed_terms(e["l"], sign) + signed_terms(e["r"], -sign)
+        return [(s1 * s2 * sign, f1 + f2) for s1, f1 in signed_terms(e["l"]) for s2, f2 in signed_terms(e["r"])]
+
+    def lit(f):
+        if f["v"] is not None:
+            return Fraction(f["v"]["n"], 1 << f["v"]["e"])
+        return Fraction(f["text"]) if "e" not in f["text"].lower() else Fraction(float(f["text"]))
+
+    tidx = list(asg["tidx"])
+    out = {}
+    for c in itertools.product(*[range(dims[i]) for i in tidx]):
+        env0 = dict(zip(tidx, c))
+        total = Fraction(0)
+        for sign, factors in signed_terms(asg["rhs"]):
+            own = sorted({i for f in factors if f["k"] == "T" for i in f["idx"]} - set(tidx))
+            for vals in itertools.product(*[range(dims[i]) for i in own]):
+                env = dict(env0, **dict(zip(own, vals)))
+                p = Fraction(sign)
+                for f in factors:
+                    p *= lit(f) if f["k"] == "L" else content[f["name"]].get(tuple(env[i] for i in f["idx"]), Fraction(0))
+                total += p
+        out[c] = total
+    return out
+
+
+def decode(levels, vals, fmt: dict, dims_t: list) -> dict:
+    """Raw arrays -> {coordinate (dimension order): value}; the harness-side mirror of Storage!Decode."""
+    modes, ordering = fmt["modes"], fmt["ordering"]
+    n = len(modes)
+    out = {}
+
+    def rec(l, prefix, pos):
+        if l == n:
+            c = [None] * n
+            for lv in range(n):
+                c[ordering[lv]] = prefix[lv]
+            out[tuple(c)] = vals[pos]
+            return
+        d = dims_t[ordering[l]]
+        if modes[l] == "d":
+            for k in range(d):
+                rec(l + 1, prefix + [k], pos * d + k)
+        else:
+            p, cr = levels[l]
+            for q in range(p[pos], p[pos + 1]):
+                rec(l + 1, prefix + [cr[q]], q)
+
+    rec(0, [], 0)
     return out
